@@ -211,14 +211,15 @@ def r4_lock_order(ctx):
 def r2_non_interference(ctx):
     rule = 'C09.R2-counters'
     facts = ctx.facts
-    targets = [MINIMAX, AB + 'check_cache', AB + 'set_cache', SEARCH, SEARCH + '::{closure#0}']
+    cfs = [x for x in search_cache_fns(facts) if x]
+    targets = [MINIMAX] + cfs + [SEARCH, SEARCH + '::{closure#0}']
     n = 0
     for name in targets:
         if facts.fns.get(name) is None:
             ctx.anchor_missing(rule, name)
             continue
         ctx.touch(name)
-        eng = Engine(facts, inline_filter=lambda nm, c: nm in (AB + 'check_cache', AB + 'set_cache'), max_paths=40000)
+        eng = Engine(facts, inline_filter=lambda nm, c: nm in cfs, max_paths=40000)
         try:
             outs = eng.run(name)
         except PathLimit:
@@ -266,7 +267,7 @@ def r2_non_interference(ctx):
         for f, b, _ in field_reads(facts, SC, fld):
             users.add(f.closure_of or f.name)
     allowed = {SC + '::reset_stats', SC + '::searched_position_count', SC + '::cache_hit_count', SC + '::termination_count', SC + '::new',
-               MINIMAX, AB + 'check_cache', AB + 'set_cache'}
+               MINIMAX} | set(x for x in search_cache_fns(facts) if x) | facts.only_through({SC + '::reset_stats', SC + '::searched_position_count', SC + '::cache_hit_count', SC + '::termination_count'})
     users = {u for u in users if not facts.fns[u].derived}
     ctx.ob(rule, SC, 'counters touched only by the search, reset_stats and the getters', users <= allowed, found=sorted(users - allowed), expected=[], nontrivial=False)
 
